@@ -139,6 +139,24 @@ func (e *Evaluator) Exec(fn *ssa.Function, args []V) Outcome {
 	steps := 0
 	for {
 		var next *ssa.BasicBlock
+		// phis are evaluated simultaneously on block entry
+		{
+			tmp := map[*ssa.Phi]V{}
+			for _, in := range b.Instrs {
+				x, ok := in.(*ssa.Phi)
+				if !ok {
+					break
+				}
+				for i, p := range b.Preds {
+					if p == prev {
+						tmp[x] = e.val(fr, x.Edges[i])
+					}
+				}
+			}
+			for k, v := range tmp {
+				fr.vals[k] = v
+			}
+		}
 		for _, in := range b.Instrs {
 			steps++
 			if steps > e.MaxSteps {
@@ -146,11 +164,7 @@ func (e *Evaluator) Exec(fn *ssa.Function, args []V) Outcome {
 			}
 			switch x := in.(type) {
 			case *ssa.Phi:
-				for i, p := range b.Preds {
-					if p == prev {
-						fr.vals[x] = e.val(fr, x.Edges[i])
-					}
-				}
+				// done above
 			case *ssa.If:
 				c := e.val(fr, x.Cond)
 				bv, ok := c.Bool()
@@ -223,7 +237,10 @@ func (e *Evaluator) Exec(fn *ssa.Function, args []V) Outcome {
 					e.OnCall(x.(ssa.CallInstruction), nil)
 				}
 			case ssa.Value:
-				// computed lazily by val()
+				// eager: the value an instruction has is the one computed when it executes
+				if _, isExtract := x.(*ssa.Extract); !isExtract {
+					fr.vals[x] = e.compute(fr, x)
+				}
 			}
 		}
 		if next == nil {
@@ -237,13 +254,7 @@ func (e *Evaluator) val(fr *frame, v ssa.Value) V {
 	if r, ok := fr.vals[v]; ok {
 		return r
 	}
-	r := e.compute(fr, v)
-	if _, isPhi := v.(*ssa.Phi); !isPhi {
-		if _, isLoad := v.(*ssa.UnOp); !isLoad { // loads depend on memory state: do not cache
-			fr.vals[v] = r
-		}
-	}
-	return r
+	return e.compute(fr, v)
 }
 
 func (e *Evaluator) compute(fr *frame, v ssa.Value) V {
